@@ -48,6 +48,11 @@ DIGITS = [("0.3", "0.30000000000000004"), ("0.333333333333333", "0.3333333333333
 
 
 class GM:
+    #: set by gen_doc for strata whose parameter values are not exactly representable sums (the `digits`
+    #: stratum): no discontinuous operator is generated there, because a value that lands exactly on a
+    #: jump (rem(4, 0.3 + 0.5)) would make the comparison depend on the last bit
+    SMOOTH = False
+
     def __init__(self, rng, names, *, floaty: bool, funs=()):
         self.rng, self.names, self.floaty, self.funs = rng, list(names), floaty, list(funs)
 
@@ -71,6 +76,8 @@ class GM:
             return self.leaf()
         k = r.choice(["plus", "plus3", "minus", "neg", "times", "times", "divc", "pow", "pw", "abs", "ceil", "floor",
                       "minmax", "quot", "rem", "call", "float", "float"])
+        if GM.SMOOTH and k in ("pw", "ceil", "floor", "quot", "rem"):
+            k = r.choice(["plus", "minus", "times", "abs", "minmax"])
         if k == "plus":
             return ["AST_PLUS", [self.num(d - 1), self.num(d - 1)]]
         if k == "plus3":
@@ -186,6 +193,7 @@ def uses_all(rng, g, m, names):
 def gen_doc(rng, *, stratum: str):
     """stratum: exact | float | keywords | mixed | srefkw | compkw | initname | digits | gennames | rewrite"""
     floaty = stratum == "float"
+    GM.SMOOTH = stratum == "digits"
     kw = stratum == "keywords"
     pool_s = list(PLAIN_S) + (KEYWORD_IDS[:4] if kw else [])
     pool_p = list(PLAIN_P) + (KEYWORD_IDS[4:8] if kw else [])
@@ -850,9 +858,10 @@ def pool():
 # ---------------------------------------------------------------------------------------------- comparison
 
 
-def snap(numbers, ref, stats=None, fill_none=False, exact_init=False):
+def snap(numbers, ref, stats=None, fill_none=False, exact_init=()):
     """numbers within tolerance of `ref` (same shape) are replaced by ref's strings
-    (`exact_init`: initial values must be the very same double)"""
+    (`exact_init`: names whose initial value must be the very same double — the attribute values the
+    `digits` stratum wrote; values COMPUTED from them go through float arithmetic and are compared to tolerance)"""
     def one(v, r, exact=False):
         if exact and v is not None and r is not None:
             return v
@@ -865,7 +874,7 @@ def snap(numbers, ref, stats=None, fill_none=False, exact_init=False):
             stats[c] = stats.get(c, 0) + 1
         return r if c != "diff" else v
 
-    out = {"init": {k: one(numbers["init"].get(k), r, exact_init) for k, r in ref["init"].items()}, "at": []}
+    out = {"init": {k: one(numbers["init"].get(k), r, k in exact_init) for k, r in ref["init"].items()}, "at": []}
     for a, ra in zip(numbers["at"], ref["at"]):
         out["at"].append({"vals": {k: one(a["vals"].get(k), r) for k, r in ra["vals"].items()},
                           "rhs": {k: one(a["rhs"].get(k), r) for k, r in ra["rhs"].items()}})
@@ -895,7 +904,10 @@ def judge_doc(ctx, case, R, M, S=None, what="imported model differs from the doc
     elif R.get("missing"):
         Rv = {"missing": R["missing"]}
     else:
-        Rv = snap(R, S, stats, exact_init=case["kind"] == "digits")
+        # exact only for parameters that carry one of the long literals and are not overridden by an assignment
+        assigned = {k for k, _ in case["doc"].get("inits", [])} | {k for k, _ in case["doc"].get("rules", [])}
+        exact = set(case.get("raw") or {}) - assigned if case["kind"] == "digits" else ()
+        Rv = snap(R, S, stats, exact_init=exact)
     for k, v in stats.items():
         ctx.hist[f"numbers {k}"] = ctx.hist.get(f"numbers {k}", 0) + v
     return ctx.judge(small, Rv, S, None, finding=case["finding"], what=what)
